@@ -14,7 +14,7 @@ Oracle on the real code (never uses the Lean model):
       messages `Translator.extract` reports for a fresh copy of the template.
 Correspondence: the same template streams are sent to the Lean model (`gdrv`) and compared.
 """
-import json
+import hashlib, json
 from harness import proto, gen_i18n as G
 from harness.framework import Result, pmap
 from harness.proto import Atom, B
@@ -142,6 +142,7 @@ def gen_with(case, f, api='full', func_api=False):
         tr.setup(tmpl)
         data = dict(case['data'])
         data['_'] = cat.gettext
+        data['ngettext'] = cat.ngettext
         return ['ok', canon_stream(tmpl.generate(**data))], cat
     except RecursionError:
         return ['err', 'RecursionError'], cat
@@ -149,7 +150,8 @@ def gen_with(case, f, api='full', func_api=False):
         return ['err', type(e).__name__], cat
 
 
-def gen_ref(case, f, identity=False):
+def gen_ref(case, f, identity=False, code_f=None):
+    """`code_f`: what the gettext functions called from template code answer (default: f)"""
     from genshi.template import MarkupTemplate
     try:
         tree, ref = G.reference(case['tmpl'], f, case['cfg'], identity=identity)
@@ -158,7 +160,9 @@ def gen_ref(case, f, identity=False):
     try:
         tmpl = MarkupTemplate(G.source(tree, i18n=False))
         data = dict(case['data'])
-        data['_'] = f
+        g = code_f or f
+        data['_'] = g
+        data['ngettext'] = lambda s, p, n: g(s if n == 1 else p)
         return ['ok', canon_stream(tmpl.generate(**data))]
     except Exception as e:  # noqa
         return ['err', type(e).__name__]
@@ -321,7 +325,54 @@ def msg_text_parents(tree):
 # --------------------------------------------------------------------------
 # the oracle for one case
 
+def valid_case(case):
+    """is this a well-formed case (the shrinker also produces garbage): the tree has the node
+    shapes of gen_i18n and its source parses as a template"""
+    def ok_parts(ps):
+        return isinstance(ps, list) and all(isinstance(p, list) and len(p) == 2 and p[0] in ('t', 'x')
+                                            and isinstance(p[1], str) and (p[0] == 't' or p[1]) for p in ps)
+
+    def ok(n):
+        if not isinstance(n, list) or not n:
+            return False
+        k = n[0]
+        if k in ('t', 'c'):
+            return len(n) == 2 and isinstance(n[1], str)
+        if k == 'x':
+            return len(n) == 2 and isinstance(n[1], str) and bool(n[1])
+        if k == 'e':
+            return (len(n) == 5 and isinstance(n[1], str) and bool(n[1]) and isinstance(n[2], list)
+                    and all(isinstance(a, list) and len(a) == 2 and isinstance(a[0], str) and a[0] and ok_parts(a[1]) for a in n[2])
+                    and isinstance(n[3], list) and all(isinstance(d, list) and len(d) == 2 and isinstance(d[0], str)
+                                                       and ':' in d[0] and isinstance(d[1], str) for d in n[3])
+                    and isinstance(n[4], list) and all(ok(c) for c in n[4]))
+        if k == 'd':
+            return (len(n) == 4 and isinstance(n[1], str) and ':' in n[1] and isinstance(n[2], list)
+                    and all(isinstance(a, list) and len(a) == 2 and isinstance(a[0], str) and a[0] and isinstance(a[1], str) for a in n[2])
+                    and isinstance(n[3], list) and all(ok(c) for c in n[3]))
+        return False
+    try:
+        if not (isinstance(case, dict) and isinstance(case.get('tmpl'), list) and all(ok(n) for n in case['tmpl'])):
+            return False
+        cfg = case.get('cfg')
+        if not (isinstance(cfg, dict) and isinstance(cfg.get('ignore_tags'), list) and isinstance(cfg.get('include_attrs'), list)
+                and isinstance(cfg.get('extract_text'), bool)):
+            return False
+        if case.get('cat', 'id') not in ('id', 'scramble', 'perm', 'drop', 'permdrop', 'dropnested'):
+            return False
+        for v in G.STR_VARS + G.BOOL_VARS + G.NUM_VARS + G.LIST_VARS:
+            if v not in case.get('data', {}):
+                return False
+        from genshi.template import MarkupTemplate
+        MarkupTemplate(G.source(case['tmpl']))
+        return True
+    except Exception:  # noqa
+        return False
+
+
 def oracle_case(case):
+    if not valid_case(case):
+        return None
     fails = []
 
     def bad(what, expected, observed):
@@ -356,7 +407,7 @@ def oracle_case(case):
             bad('catalogue %s: placeholders are replaced by the original elements, each once, in the translator\'s order' % kind,
                 _clip(r), _clip(w))
     if kind != 'id' and 'excluded' in checks and w[0] == 'ok':
-        r0 = gen_ref(_plain(case), G.cat_identity, identity=True)
+        r0 = gen_ref(_plain(case), G.cat_identity, identity=True, code_f=f)
         if r0[0] == 'ok':
             e = check_excluded(case, w[1], r0[1])
             if e:
@@ -720,12 +771,65 @@ def compare(triples, res):
         res.streams[stream] = res.streams.get(stream, 0) + 1
         if stream == 'translate' and real[0] != 'err' and isinstance(model, list) and len(model) == 2:
             res.count('translate:lookups', len(real[1]))
+        if isinstance(real, list) and real and real[0] == 'err':
+            res.count('%s:%s' % (stream, real[1]))
+        elif stream == 'msggen' and real[0][0] == 'err':
+            res.count('%s:%s' % (stream, real[0][1]))
+        elif stream == 'extract' and real[0] == 'ok':
+            res.count('extract:messages', len(real[1]))
         if model != real:
             res.disagreements.append({'stream': stream, 'case': {'line': line}, 'model': repr(model)[:1500],
                                       'real': repr(real)[:1500]})
 
 
 # --------------------------------------------------------------------------
+
+def features(tree):
+    """constructs a template uses (for the distribution in the evidence)"""
+    fs = set()
+
+    def walk(n, depth_in_msg):
+        if n[0] == 'e':
+            names = [d[0] for d in n[3]]
+            for d in names:
+                fs.add(d if depth_in_msg is None else 'in-msg:' + d if d.startswith('py:') else d)
+            if n[1] in G.IGNORED:
+                fs.add('ignored-tag')
+            for name, parts in n[2]:
+                if name == 'xml:lang':
+                    fs.add('xml:lang-literal' if all(p[0] == 't' for p in parts) else 'xml:lang-expr')
+                elif name in G.INCL_ATTRS:
+                    if len(parts) == 1 and parts[0][0] == 't':
+                        fs.add('attr-included')
+                    else:
+                        fs.add('attr-interpolated')
+                for p in parts:
+                    if p[0] == 'x' and '(' in p[1]:
+                        fs.add('code-gettext')
+            dm = depth_in_msg
+            if 'i18n:msg' in names or 'i18n:singular' in names or 'i18n:plural' in names:
+                dm = 0
+            elif dm is not None:
+                dm += 1
+                fs.add('msg-depth-%d' % min(dm, 3))
+            for k in n[4]:
+                walk(k, dm)
+        elif n[0] == 'd':
+            fs.add('element:' + n[1])
+            dm = 0 if n[1] in ('i18n:msg', 'i18n:singular', 'i18n:plural') else depth_in_msg
+            for k in n[3]:
+                walk(k, dm)
+        elif n[0] == 'x':
+            if depth_in_msg is not None:
+                fs.add('msg-param')
+            if '(' in n[1]:
+                fs.add('code-gettext')
+        elif n[0] == 'c':
+            fs.add('comment')
+    for n in tree:
+        walk(n, None)
+    return fs
+
 
 def gen_cases(rng, n, hazards=()):
     cases = []
@@ -755,6 +859,18 @@ def shard(arg):
     for c in cases:
         res.evaluations += 1
         res.count('cat:' + c['cat'])
+        fs = features(c['tmpl'])
+        for ft in fs:
+            res.count('tmpl:' + ft)
+        if not c['cfg']['extract_text']:
+            res.count('cfg:extract_text=False')
+        if c['cfg']['ignore_tags'] != list(G.IGNORED):
+            res.count('cfg:ignore_tags-changed')
+        if c['cfg']['include_attrs'] != list(G.INCL_ATTRS):
+            res.count('cfg:include_attrs-changed')
+        if fs & set(['i18n:msg', 'element:i18n:msg', 'i18n:choose', 'element:i18n:choose', 'ignored-tag',
+                     'xml:lang-literal', 'attr-included', 'i18n:domain', 'i18n:ctxt']):
+            res.nontrivial.add(hashlib.sha1((G.source(c['tmpl']) + c['cat']).encode('utf-8')).hexdigest()[:16])
         f = oracle_case(c)
         if f:
             res.failures.append(f)
@@ -770,10 +886,16 @@ def shard(arg):
 
 def run(ctx):
     nsh = 16
-    per = ctx.n(200, 6000)
+    per = ctx.n(300, 6000)
     res = Result()
     for r in pmap('harness.props.c19', 'shard', [(ctx.seed, i, per) for i in range(nsh)]):
         res.merge(r)
+    res.rule = ('generated i18n templates (translatable text and attributes, ignored tags, xml:lang, msg with nested '
+                'elements / parameters / directives, plural choices, domains, contexts, comments, gettext calls in code, '
+                'py:if/for/strip) x catalogue (identity, scramble, permuting, dropping) x configuration; non-trivial = the '
+                'template has a message directive, an excluded region, a translated attribute or a domain/context; '
+                'distinct by (source, catalogue)')
+    res.samples = [{'source': G.source(c['tmpl']), 'cat': c['cat'], 'cfg': c['cfg']} for c in res.samples[:4]]
     return res
 
 
